@@ -25,6 +25,7 @@ RULES_DOC = dict(common.SHARED_DOC)
 RULES_DOC["R6"] = "config getters: each out-parameter of ABT_{sched,pool}_config_get is written whenever the key is found and that out-parameter is non-NULL, independent of the other out-parameter (sibling agreement between the two getters)"
 RULES_DOC["R7"] = "every load_env_<T> call whose bound is one of the ABTD_ENV_*_MAX type limits uses the limit of its own type <T> (a 64-bit setting is not clamped with the 32-bit maximum)"
 RULES_DOC["R8"] = "roundup_pow2_<T> shifts over all bits of its own type: the loop bound is 8*sizeof(T)-1 for the T it returns (a size_t value above 2^31 is not rounded with the 32-bit bound)"
+RULES_DOC["R11"] = "sibling agreement on the element size of the hash table: the bucket stride of get_element, the table allocation, the allocation of a chained element and the whole-element memcpy of delete use the same ABTU_roundup_size expression (a packed stride with a cache-line-sized copy clears the next bucket)"
 RULES_DOC["R10"] = "ABTU_hashtable_set appends at the tail of a collision chain: the p_next link it writes belongs to the element whose p_next was tested (NULL) on the way to the store -- writing the head's link instead drops every element behind the head once three keys collide"
 RULES_DOC["R9"] = "ABT_{sched,pool}_config_set changes the map only after the new element was built: on every path the deletion / replacement of an entry follows the successful typed construction, and an error return has not touched the map"
 RULES_DOC.update({
@@ -692,6 +693,28 @@ def rule_R10(P, rep):
     rep.need(n >= 1, "ABTU_hashtable_set never links a new element")
 
 
+def rule_R11(P, rep):
+    """Every routine of hashtable.c computes the size of an in-table / chained element the same way: the bucket stride
+    of get_element, the allocation of the table, the allocation of a chained element and the whole-element copy of
+    delete must agree, or a copy overruns the neighbouring bucket."""
+    H = "src/util/hashtable.c"
+    sizes = {}
+    for F in sorted(P.functions.values(), key=lambda f: (f.file, f.line)):
+        if F.file != H:
+            continue
+        for _b, i in F.calls("ABTU_roundup_size"):
+            txt = canon.expr(F, i)
+            if True:
+                # the constant parts: header size added to the payload size, and the alignment (the payload size is a
+                # field in one routine and a parameter in another)
+                key = "roundup(%s + data_size, %s)" % tuple((re.findall(r"\b\d+\b", txt) + ["?", "?"])[:2])
+                sizes.setdefault(key, []).append("%s (%s)" % (F.name, F.loc(i)))
+    rep.need(sum(len(v) for v in sizes.values()) >= 3, "only %s element-size computations in hashtable.c" % sizes)
+    rep.ob("R11", "hashtable.c computes the element size identically everywhere (stride, allocation, whole-element copy)",
+           len(sizes) == 1, "different element sizes: %s" % "; ".join("%s in %s" % (k, ", ".join(v)) for k, v in sorted(sizes.items())),
+           loc=H, site="hashtable/element-size")
+
+
 def run(P, rep, tier):
     rule_R1(P, rep)
     rule_R2(P, rep)
@@ -702,3 +725,4 @@ def run(P, rep, tier):
     rule_R8(P, rep)
     rule_R9(P, rep)
     rule_R10(P, rep)
+    rule_R11(P, rep)
